@@ -16,6 +16,7 @@ EXPLANATION = (
     "Decided: R05.1 encode(char*) and encode(ostream&) emit _unknown after the field loop; _unknown.append(dptr + s_offset, result) with "
     "result = the extractor's return for that token; R05.2 the return path that yields last_valid_offset must truncate _unknown to what "
     "was captured before that offset; R05.3 decode_group has a permissive parameter (or consults one) and can capture unknown tokens. "
+    "R05.4 no test on the number of bytes the decoders consumed can make Message::factory reject when permissive_mode is true. "
     "NOT decided: decoded values.")
 
 MB = 'FIX8::MessageBase::'
@@ -68,3 +69,34 @@ def run(ctx):
               'known fields fall into the parent\'s pass-through buffer (known fields are lost)')
     calls = [c for c in d.calls_to(MB + 'decode_group')]
     ctx.check(bool(calls), 'R05.3', MB + 'decode#calls-group-decoder', d.loc, 'the section decoder delegates groups to decode_group')
+
+    # ---------------- R05.4 the factory must not reject a permissive decode on account of what was (or was not) consumed
+    fac = prog.fn1('FIX8::Message::factory', sig='const FIX8::f8String &')
+    ctx.saw(fac)
+    fc = fac.cfg
+    dec = [c for c in fac.calls() if c.callee_qp == 'FIX8::Message::decode']
+    ctx.need(len(dec) == 1, 'factory: Message::decode call not found')
+    holder = dec[0].parent
+    while holder is not None and holder.k in ('ImplicitCastExpr', 'ParenExpr', 'ExprWithCleanups'):
+        holder = holder.parent
+    perm = fac.param_ids[3]
+    n_tests = 0
+    if holder is not None and holder.k == 'DeclStmt':
+        var = holder.r['decls'][0][0]
+        okf = q.valuation_edge_filter(fac, {perm: 1})
+        rp = fc.reach_from(fc.entry, edge_ok=okf) | {fc.entry}
+        for (b, a, pol) in q.branches(fac, lambda a: any(q.refers_to_decl(x, var) for x in a.walk() if x.k == 'DeclRefExpr')):
+            last = fc.block_last[b]
+            for way in (True, False):
+                tg = q.edge_targets(fc, b, way)
+                if not tg or q.reachable_returns(fc, tg):
+                    continue            # this edge can still return the message
+                n_tests += 1
+                open_perm = last in rp and any(okf(last, t, (b, way)) for t in tg)
+                ctx.check(not open_perm, 'R05.4', 'FIX8::Message::factory#consumed-test-strict-only@%d' % n_tests, a.loc,
+                          'the consumed-length test `%s` can only reject when permissive_mode is false' % fc.cond_node(b).text(),
+                          'factory can reject the message on `%s` even in permissive mode: a permissive section decoder hands back the offset of the '
+                          'first unknown token, so a message whose unknown tokens follow its last known field is thrown away instead of passed through'
+                          % fc.cond_node(b).text())
+    if n_tests == 0:
+        ctx.ok('R05.4', 'FIX8::Message::factory#consumed-test-strict-only', fac.loc, 'factory has no rejecting test on the consumed length')
